@@ -13,7 +13,8 @@
    holds  = the property itself on the implementation's answers only:
             a = b, off = b, c = b, d1 = b (unusable / outdated snapshot: nothing lost, nothing
             invented), d2 = a (the snapshot alone carries everything before its position),
-            e = e2, exemplars(a) and exemplars(b) are among the exemplars before the shutdown.
+            e = e2, head state (in-order samples >= minValidTime and out-of-order samples per
+            series) of a = that of b, exemplars(a) and exemplars(b) are among the exemplars before the shutdown.
    agree  = the model's Init on the decoded durable state (WAL records, head chunk files,
             snapshot content) gives the same answers for a, b, off, c, d1, d2. *)
 From Coq Require Import List ZArith Bool Uint63.
@@ -51,6 +52,7 @@ Record case := mkCase {
   c_qa : option answer; c_qb : option answer; c_qoff : option answer;
   c_qc : option answer; c_qd1 : option answer; c_qd2 : option answer;
   c_qe : option answer; c_qe2 : option answer;
+  c_ha : option answer; c_hb : option answer;   (* head state after restart a / b *)
   c_epre : list (Z * sample); c_ea : list (Z * sample); c_eb : list (Z * sample) }.
 
 (* ---- equality of answers ---- *)
@@ -75,6 +77,7 @@ Definition ex_incl (a b : list (Z * sample)) : bool := forallb (fun e => ex_in e
 Definition holds (c : case) : bool :=
   both (c_qa c) (c_qb c) && both (c_qoff c) (c_qb c) && both (c_qc c) (c_qb c) &&
   both (c_qd1 c) (c_qb c) && both (c_qd2 c) (c_qa c) && both (c_qe c) (c_qe2 c) &&
+  both (c_ha c) (c_hb c) &&
   ex_incl (c_ea c) (c_epre c) && ex_incl (c_eb c) (c_epre c).
 
 (* ---- the model's answers ---- *)
